@@ -4,6 +4,7 @@
 package forward
 
 //@ type StateListener
+//@   shared
 //@   immutable next stateListener
 
 //@ functype forward.URLForwardingStateListener
@@ -17,6 +18,7 @@ package forward
 //@   modifies everything
 //@   ensures paired: calls(s.stateListener) == 2 && callarg(s.stateListener, 0, 1) == 0 && callarg(s.stateListener, 1, 1) == 1 && calls(s.next.ServeHTTP) == 1
 //@   ensures aborts_are_not_swallowed: !panicked(s.next.ServeHTTP)
+//@   at_call s.stateListener names_this_request: arg0 == req.URL
 //@   ensures_panic paired_when_forwarding_aborts: calls(s.next.ServeHTTP) == 1 ==> calls(s.stateListener) == 2 && callarg(s.stateListener, 1, 1) == 1
 
 // ---- C08: the Director of the pre-configured ReverseProxy -------------------------------------------------------------
